@@ -18,6 +18,10 @@ ARG1 = ("V", "arg", 1)
 ARG2 = ("V", "arg", 2)
 
 
+def _IDX_LT_N(an):
+    return [("poly", ">=", selfN(an) - Poly.atom(("arg", 2)) - 1)]
+
+
 def selfN(a):
     return a.tenv.length(adt_args(a.body["impl_self"])[1]) if is_ga(a.body["impl_self"]) else None
 
@@ -411,6 +415,24 @@ def check(ctx):
     cfgs = ["F0", "F1", "F1N"] if ctx.tier == "quick" else ["F0", "F1", "F1N", "F2", "F0N", "F2N"]
     ctx.need(*cfgs)
     for cfg in cfgs:
+        # C09.N: the Vec operations these functions stand for do not fail for a valid position, so no path of the owned operations may end in a
+        # panic of their own - an arithmetic check that can fail (`Sub1::<N>::USIZE - 1` for N == 1), an index out of range, an unwrap. The
+        # unchecked removals are judged under their precondition idx < N (the checked wrappers assert it: C09.A).
+        from ..rules import reachable_panics as _rp
+        if not cfg.endswith("N"):
+            for nm_, tr_ in (("append", "Lengthen<$0>"), ("prepend", "Lengthen<$0>"), ("pop_back", "Shorten<$0>"), ("pop_front", "Shorten<$0>"),
+                             ("concat", "Concat<$0,$2>"), ("split", "Split<$0,$2>"), ("remove_unchecked", "Remove<$0,$1>"), ("swap_remove_unchecked", "Remove<$0,$1>")):
+                k_ = SEQ % (tr_, nm_)
+                b_ = ctx.db(cfg).get(k_)
+                if b_ is None:
+                    continue
+                pre_ = None
+                if nm_.endswith("_unchecked"):
+                    pre_ = _IDX_LT_N
+                a_ = ctx.analysis_inl(cfg, k_, pre_, split=True, tag="c09n") if pre_ is not None else ctx.analysis_inl(cfg, k_, split=True, tag="c09n")
+                pan_ = _rp(a_)
+                ctx.ob("C09.N", k_, not pan_, "no path of the operation ends in a panic of its own (compiler-inserted checks included)%s: %s" % (
+                    " under idx < N" if pre_ is not None else "", (not pan_) or pan_), at=b_["at"], cfg=cfg)
         from ..rules import check_no_generic_zeroed as _cz
         _cz(ctx, cfg, "C09.Z0")
         n = 0
